@@ -27,3 +27,12 @@ Definition classified (s : str * str) : bool := match classify s with Some _ => 
 
 Lemma Sites_classified : forallb classified nondet_sites = true.
 Proof. vm_compute. reflexivity. Qed.
+
+(* the collect-then-sort sites rely on these calls, comparator included (inventory GVGen.Tables.sort_calls,
+   regenerated on every run): sorting the dependency strings, and sorting import specs by path *)
+Definition required_sorts : list (str * str) :=
+  [ ([99; 104; 101; 99; 107; 88; 71; 111; 80; 107; 103]%N, [115; 111; 114; 116; 46; 83; 116; 114; 105; 110; 103; 115; 40; 100; 101; 112; 115; 41]%N);
+    ([70; 105; 108; 101; 46; 103; 101; 116; 68; 101; 99; 108; 115]%N, [115; 111; 114; 116; 46; 83; 108; 105; 99; 101; 40; 115; 112; 101; 99; 115; 44; 32; 102; 117; 110; 99; 40; 105; 44; 32; 106; 32; 105; 110; 116; 41; 32; 98; 111; 111; 108; 32; 123; 32; 114; 101; 116; 117; 114; 110; 32; 115; 112; 101; 99; 115; 91; 105; 93; 46; 40; 42; 97; 115; 116; 46; 73; 109; 112; 111; 114; 116; 83; 112; 101; 99; 41; 46; 80; 97; 116; 104; 46; 86; 97; 108; 117; 101; 32; 60; 32; 115; 112; 101; 99; 115; 91; 106; 93; 46; 40; 42; 97; 115; 116; 46; 73; 109; 112; 111; 114; 116; 83; 112; 101; 99; 41; 46; 80; 97; 116; 104; 46; 86; 97; 108; 117; 101; 32; 125; 41]%N) ].
+Definition pair_eqb (a b : str * str) : bool := str_eqb (fst a) (fst b) && str_eqb (snd a) (snd b).
+Lemma Sorts_present : forallb (fun s => existsb (pair_eqb s) sort_calls) required_sorts = true.
+Proof. vm_compute. reflexivity. Qed.
